@@ -286,7 +286,12 @@ static int _vds_shared_init(vorbis_dsp_state *v,vorbis_info *vi,int encp){
       vorbis_staticbook_destroy(ci->book_param[i]);
       ci->book_param[i]=NULL;
     }
+    vorbis_book_clear(ci->fullbooks+i);
   }
+  /* don't leave a half-built set behind: a later init on this
+     vorbis_info would take it for complete and skip book setup */
+  _ogg_free(ci->fullbooks);
+  ci->fullbooks=NULL;
   vorbis_dsp_clear(v);
   return -1;
 }
